@@ -662,7 +662,11 @@ func (c *FnCtx) calleeEnv(st, old *State, fn *types.Func, ct *Contract, recv *Va
 	}
 	for i, p := range pn {
 		if i < len(args) && p != "" && p != "_" {
-			m[p] = Val{T: args[i].T, Typ: sig.Params().At(i).Type()}
+			pt := sig.Params().At(i).Type()
+			if _, isTP := types.Unalias(pt).(*types.TypeParam); isTP && args[i].Typ != nil {
+				pt = args[i].Typ
+			}
+			m[p] = Val{T: args[i].T, Typ: pt}
 		}
 	}
 	for i, r := range results {
